@@ -42,15 +42,18 @@ type Result struct {
 const vpath = "verif/vsched"
 
 type rewriter struct {
-	fset    *token.FileSet
-	info    *types.Info
-	pkg     *types.Package
-	res     *Result
-	opt     Options
-	tmpN    int
-	needVS  bool
-	pkgVars map[types.Object]bool
-	tainted map[types.Object]bool // locals that alias package-level state (per function)
+	fset      *token.FileSet
+	info      *types.Info
+	pkg       *types.Package
+	res       *Result
+	opt       Options
+	tmpN      int
+	siteN     int
+	siteBase  int
+	needVS    bool
+	pkgVars   map[types.Object]bool
+	tainted   map[types.Object]bool // locals that alias package-level state (per function)
+	sharedRet map[types.Object]bool // functions of the package whose result may alias package-level state
 }
 
 func (r *rewriter) count(k string) { r.res.Counts[k]++ }
@@ -83,6 +86,10 @@ func Instrument(opt Options) (*Result, error) {
 	}}
 	pkg, _ := conf.Check(opt.Dir, fset, files, info)
 	rw := &rewriter{fset: fset, info: info, pkg: pkg, res: res, opt: opt, pkgVars: map[types.Object]bool{}}
+	for _, c := range opt.Dir {
+		rw.siteBase = (rw.siteBase*31 + int(c)) % 1000
+	}
+	rw.siteBase *= 100000
 	if pkg != nil {
 		sc := pkg.Scope()
 		for _, n := range sc.Names() {
@@ -91,6 +98,9 @@ func Instrument(opt Options) (*Result, error) {
 				res.PkgVars = append(res.PkgVars, n)
 			}
 		}
+	}
+	if opt.TouchVars {
+		rw.computeSharedReturning(files)
 	}
 	want := map[string]bool{}
 	for _, f := range opt.Files {
@@ -281,6 +291,83 @@ func hasRefs(t types.Type, depth int) bool {
 	return true
 }
 
+// computeSharedReturning finds the functions of the package that return (something reachable from) a
+// package-level variable, directly or through another such function: `w := acquireScratch()` then aliases
+// shared state just as `w := scratch` does.
+func (r *rewriter) computeSharedReturning(files []*ast.File) {
+	r.sharedRet = map[types.Object]bool{}
+	for iter := 0; iter < 4; iter++ {
+		changed := false
+		for _, f := range files {
+			for _, d := range f.Decls {
+				fd, ok := d.(*ast.FuncDecl)
+				if !ok || fd.Body == nil || fd.Type.Results == nil {
+					continue
+				}
+				fo := r.info.Defs[fd.Name]
+				if fo == nil || r.sharedRet[fo] {
+					continue
+				}
+				refs := false
+				for _, res := range fd.Type.Results.List {
+					if tv, ok := r.info.Types[res.Type]; ok && hasRefs(tv.Type, 0) {
+						refs = true
+					}
+				}
+				if !refs {
+					continue
+				}
+				r.computeTaint(fd.Body)
+				hit := false
+				ast.Inspect(fd.Body, func(n ast.Node) bool {
+					ret, ok := n.(*ast.ReturnStmt)
+					if !ok {
+						return true
+					}
+					for _, e := range ret.Results {
+						ast.Inspect(e, func(m ast.Node) bool {
+							switch x := m.(type) {
+							case *ast.Ident:
+								if o := r.info.Uses[x]; o != nil && (r.pkgVars[o] || r.isModuleVar(o) || r.tainted[o]) {
+									hit = true
+								}
+							case *ast.CallExpr:
+								if r.callsShared(x) {
+									hit = true
+								}
+							}
+							return !hit
+						})
+					}
+					return true
+				})
+				r.tainted = nil
+				if hit {
+					r.sharedRet[fo] = true
+					changed = true
+				}
+			}
+		}
+		if !changed {
+			break
+		}
+	}
+}
+
+func (r *rewriter) callsShared(c *ast.CallExpr) bool {
+	var id *ast.Ident
+	switch f := unparen(c.Fun).(type) {
+	case *ast.Ident:
+		id = f
+	case *ast.SelectorExpr:
+		id = f.Sel
+	}
+	if id == nil {
+		return false
+	}
+	return r.sharedRet[r.info.Uses[id]]
+}
+
 // computeTaint finds the local variables of a function body that may alias package-level state:
 // x := pkgVar..., x = tainted..., for _, x := range pkgVar, iterated to a fixpoint.
 func (r *rewriter) computeTaint(body *ast.BlockStmt) {
@@ -288,8 +375,13 @@ func (r *rewriter) computeTaint(body *ast.BlockStmt) {
 	mentions := func(e ast.Expr) bool {
 		found := false
 		ast.Inspect(e, func(n ast.Node) bool {
-			if id, ok := n.(*ast.Ident); ok {
-				if o := r.info.Uses[id]; o != nil && (r.pkgVars[o] || r.isModuleVar(o) || r.tainted[o]) {
+			switch x := n.(type) {
+			case *ast.Ident:
+				if o := r.info.Uses[x]; o != nil && (r.pkgVars[o] || r.isModuleVar(o) || r.tainted[o]) {
+					found = true
+				}
+			case *ast.CallExpr:
+				if r.callsShared(x) {
 					found = true
 				}
 			}
@@ -623,8 +715,9 @@ func (r *rewriter) stmts(list []ast.Stmt) []ast.Stmt {
 			if names := r.mentionsPkgVar(s); len(names) > 0 {
 				r.needVS = true
 				r.count("touch")
-				out = append(out, &ast.ExprStmt{X: &ast.CallExpr{Fun: sel("vsched", "Touch"),
-					Args: []ast.Expr{&ast.BasicLit{Kind: token.STRING, Value: strconv.Quote(strings.Join(names, ","))}}}})
+				r.siteN++
+				out = append(out, &ast.ExprStmt{X: &ast.CallExpr{Fun: sel("vsched", "TouchAt"),
+					Args: []ast.Expr{&ast.BasicLit{Kind: token.INT, Value: strconv.Itoa(r.siteBase + r.siteN)}, &ast.BasicLit{Kind: token.STRING, Value: strconv.Quote(strings.Join(names, ","))}}}})
 			}
 		}
 		out = append(out, ns)
